@@ -44,17 +44,23 @@ def miri_one(prog, big, ref, mseed):
     r = sh(f"cargo +nightly miri run --offline -- {prog} {big} expect={ref}", env=env, timeout=3600)
     return mseed, r.returncode, r.stdout + "\n" + r.stderr
 
+WARM = [False]
+
 def miri_many(prog, big, ref, n):
     """Seeds 0..n; returns (first failing (seed, output) or None, number run)."""
     from concurrent.futures import ThreadPoolExecutor
-    first = miri_one(prog, big, ref, 0)  # alone first: builds the Miri sysroot / the crate once
-    if first[1] != 0:
-        return (first[0], first[2]), 1
+    start = 0
+    done = 0
+    if not WARM[0]:
+        first = miri_one(prog, big, ref, 0)  # alone first, once: builds the Miri sysroot and the crate
+        WARM[0] = True
+        if first[1] != 0:
+            return (first[0], first[2]), 1
+        start, done = 1, 1
     workers = int(os.environ.get("VERIF_WORKERS", os.cpu_count() or 4))
     bad = None
-    done = 1
     with ThreadPoolExecutor(max_workers=workers) as ex:
-        for mseed, code, out in ex.map(lambda m: miri_one(prog, big, ref, m), range(1, n)):
+        for mseed, code, out in ex.map(lambda m: miri_one(prog, big, ref, m), range(start, n)):
             done += 1
             if code != 0 and (bad is None or mseed < bad[0]):
                 bad = (mseed, out)
@@ -77,7 +83,9 @@ def run(seed):
         return 0
     t0 = time.time()
     # (program seed, size of the large frames, number of Miri seeds): one batch above the 16 KiB mark, two small ones
-    configs = [(seed * 1000 + 1, 17000, 32), (seed * 1000 + 2, 600, 64), (seed * 1000 + 3, 900, 64), (seed * 1000 + 4, 70000, 8)]
+    # program seed mod 4 selects the mix of muxers (1: all convert Annex B, 2: AV1 / VP9, 3: one fragmented, 0: free)
+    configs = [(seed * 1000 + 1, 17000, 24), (seed * 1000 + 2, 17000, 8), (seed * 1000 + 3, 17000, 8), (seed * 1000 + 5, 600, 48),
+               (seed * 1000 + 6, 900, 32), (seed * 1000 + 7, 600, 32), (seed * 1000 + 4, 900, 24), (seed * 1000 + 9, 70000, 8)]
     total = 0
     for prog, big, n in configs:
         ref = native_reference(prog, big)
